@@ -7,6 +7,7 @@ package main
 import (
 	"fmt"
 	"math"
+	"strings"
 
 	"gonum.org/v1/gonum/internal/verif/vlib"
 	"gonum.org/v1/gonum/mat"
@@ -787,6 +788,215 @@ func powPSDCase(t *vlib.T, n int, f symFamInfo, v int, rep string) {
 			bound := tolForward * fn * eps * math.Max(amp, 1) * math.Max(normF(want), 1e-300)
 			if d := maxAbs(subM(got, want)); !(d <= bound) {
 				t.Failf("%s: defect %.3g > %.3g A=%s", label, d, bound, fmtM(A))
+			}
+		}
+	}
+}
+
+// ---------------------------------------------------------------- same object in several argument positions
+
+// genSolveSame: Dense.Solve / VecDense.SolveVec where the coefficient matrix and the
+// right-hand side are the SAME object, possibly under T() on either side, and the
+// receiver possibly that object too: X must be op(a)⁻¹·op(b) by definition (the
+// identity only when both sides are the same view).
+func genSolveSame(g *vlib.G) {
+	hi := vlib.Pick(g, 5, 7)
+	for n := 1; n <= hi; n++ {
+		for _, fam := range []string{"dd", "pivot", "graded", "indef", "zeroline"} {
+			for _, kind := range []string{"dense", "view", "sym", "tri-upper", "tri-lower", "LU"} {
+				if kind == "sym" && fam != "indef" {
+					continue
+				}
+				n, fam, kind := n, fam, kind
+				g.Case(fmt.Sprintf("Solve-same n=%d fam=%s obj=%s", n, fam, kind), func(t *vlib.T) { solveSameCase(t, n, fam, kind) })
+			}
+		}
+	}
+}
+
+func solveSameCase(t *vlib.T, n int, fam, kind string) {
+	A := genMat(fam, n, n, 0)
+	if kind == "tri-upper" || kind == "tri-lower" {
+		for i := 0; i < n; i++ {
+			for j := 0; j < n; j++ {
+				if (kind == "tri-upper" && j < i) || (kind == "tri-lower" && j > i) {
+					A.set(i, j, 0)
+				}
+			}
+		}
+	}
+	mk := func() mat.Matrix {
+		switch kind {
+		case "dense":
+			return A.dense()
+		case "view":
+			return newGuarded(n, n, A).view
+		case "sym":
+			return repSym("sym", A)
+		case "tri-upper":
+			return mat.NewTriDense(n, mat.Upper, append([]float64(nil), A.d...))
+		case "tri-lower":
+			return mat.NewTriDense(n, mat.Lower, append([]float64(nil), A.d...))
+		case "LU":
+			var lu mat.LU
+			lu.Factorize(A.dense())
+			return &lu
+		}
+		panic(kind)
+	}
+	_, rank := ratElim(A)
+	full := rank == n
+	t.Nontrivial()
+	t.Outcome(fmt.Sprintf("%s full=%v", kind, full))
+	var pinv *M
+	var kappa float64
+	if full {
+		pinv, _ = pinvRef(A)
+		kappa = normF(A) * normF(pinv)
+	}
+	type arg struct {
+		name   string
+		ta, tb bool
+	}
+	for _, ar := range []arg{{"Solve(a, a)", false, false}, {"Solve(a.T(), a)", true, false}, {"Solve(a, a.T())", false, true}, {"Solve(a.T(), a.T())", true, true}} {
+		for _, recv := range []string{"empty", "sized", "receiver-is-a"} {
+			obj := mk()
+			var a, b mat.Matrix = obj, obj
+			opA, opB := A, A
+			if ar.ta {
+				a, opA = obj.T(), A.T()
+			}
+			if ar.tb {
+				b, opB = obj.T(), A.T()
+			}
+			var dst *mat.Dense
+			switch recv {
+			case "empty":
+				dst = &mat.Dense{}
+			case "sized":
+				d := make([]float64, n*n)
+				vlib.FillPoison64(d)
+				dst = mat.NewDense(n, n, d)
+			case "receiver-is-a":
+				od, ok := obj.(*mat.Dense)
+				if !ok {
+					continue
+				}
+				dst = od
+			}
+			label := fmt.Sprintf("%s recv=%s", ar.name, recv)
+			var err error
+			if msg := recoverMsg(func() { err = dst.Solve(a, b) }); msg != "" {
+				if recv == "receiver-is-a" && strings.Contains(msg, "bad region") {
+					t.Count("same_object_refused_with_overlap_panic", 1)
+					continue
+				}
+				t.Failf("%s: panic %s", label, msg)
+				continue
+			}
+			t.Count("same_object_solves", 1)
+			sameView := ar.ta == ar.tb
+			if !full {
+				// op(a)·X = op(a) is solved by X = I whatever a is; otherwise a singular a must be reported
+				if err == nil && !sameView {
+					t.Failf("%s: singular a %s solved with nil error", label, fmtM(A))
+				}
+				if err != nil {
+					continue
+				}
+			}
+			if err != nil {
+				if kappa < wellCond {
+					t.Failf("%s: %v (reference condition %.3g)", label, err, kappa)
+				}
+				continue
+			}
+			X := fromMat(dst)
+			if X.r != n || X.c != n || hasNaN(X) {
+				t.Failf("%s: result %s", label, fmtM(X))
+				continue
+			}
+			// definition: op(a)·X = op(b)
+			res := subM(mulM(opA, X), opB)
+			if r := maxAbs(res) / (float64(n) * eps * (normF(opA)*normF(X) + normF(opB))); r > tolResid {
+				t.Failf("%s: residual ratio %.3g: op(a)·X != op(b); a=%s X=%s", label, r, fmtM(A), fmtM(X))
+				continue
+			}
+			if full {
+				want := mulM(pinv, opB)
+				if ar.ta {
+					want = mulM(pinv.T(), opB)
+				}
+				bound := tolForward * float64(n) * eps * kappa * math.Max(normF(want), 1)
+				if bound <= 1e-3*normF(want) {
+					if d := maxAbs(subM(X, want)); !(d <= bound) {
+						t.Failf("%s: |X - op(a)⁻¹op(b)| = %.3g > %.3g a=%s X=%s", label, d, bound, fmtM(A), fmtM(X))
+					}
+				}
+			}
+		}
+	}
+	// SolveVec with a column (or row) view of the coefficient matrix itself as right-hand side
+	if kind == "dense" || kind == "view" {
+		for _, ta := range []bool{false, true} {
+			for j := 0; j < n; j++ {
+				obj := mk().(*mat.Dense)
+				var a mat.Matrix = obj
+				opA := A
+				var bv mat.Vector = obj.ColView(j)
+				bcol := A.col(j)
+				if ta {
+					a, opA = obj.T(), A.T()
+					bv = obj.RowView(j) // column j of aᵀ
+					bcol = A.T().col(j)
+				}
+				var x mat.VecDense
+				var err error
+				label := fmt.Sprintf("SolveVec(a%s, own column %d)", map[bool]string{true: ".T()"}[ta], j)
+				if msg := recoverMsg(func() { err = x.SolveVec(a, bv) }); msg != "" {
+					t.Failf("%s: panic %s", label, msg)
+					continue
+				}
+				t.Count("same_object_solves", 1)
+				if !full {
+					if err == nil {
+						t.Failf("%s: singular a solved with nil error", label)
+					}
+					continue
+				}
+				if err != nil {
+					if kappa < wellCond {
+						t.Failf("%s: %v", label, err)
+					}
+					continue
+				}
+				// op(a)·e_j = its own column j
+				X := fromMat(&x)
+				res := subM(mulM(opA, X), &M{r: n, c: 1, d: bcol})
+				if r := maxAbs(res) / (float64(n) * eps * (normF(opA)*normF(X) + normF(opA))); r > tolResid {
+					t.Failf("%s: residual ratio %.3g", label, r)
+				}
+				bound := tolForward * float64(n) * eps * kappa
+				for i := 0; i < n; i++ {
+					w := 0.0
+					if i == j {
+						w = 1
+					}
+					if bound <= 1e-3 && math.Abs(X.at(i, 0)-w) > bound {
+						t.Failf("%s: x = %s, want e_%d", label, fmtM(X), j)
+						break
+					}
+				}
+			}
+		}
+	}
+	// 1×1: a VecDense is both a matrix and a vector
+	if n == 1 && kind == "dense" && full {
+		v := mat.NewVecDense(1, []float64{A.at(0, 0)})
+		for _, a := range []mat.Matrix{v, v.T()} {
+			var x mat.VecDense
+			if err := x.SolveVec(a, v); err != nil || x.AtVec(0) != 1 {
+				t.Failf("SolveVec(v, v) for a 1×1 v: x=%v err=%v", fromMat(&x).d, err)
 			}
 		}
 	}
